@@ -5,6 +5,22 @@ use core::arch::x86_64::{__m128i, __m256i};
 
 mod sse2;
 
+/// Verification hook (compiled only with `--cfg cryptocorrosion_verif`): lets a test harness
+/// force the backend selected by the run-time `dispatch*!` macros, so that the SSE2 / SSSE3 /
+/// SSE4.1 / AVX instantiations can be executed on a host that also supports AVX2.
+/// 0 = normal CPU detection, 1 = SSE2, 2 = SSSE3, 3 = SSE4.1, 4 = AVX, 5 = AVX2.
+#[cfg(cryptocorrosion_verif)]
+static VERIF_FORCED_BACKEND: core::sync::atomic::AtomicU8 = core::sync::atomic::AtomicU8::new(0);
+#[cfg(cryptocorrosion_verif)]
+pub fn verif_force_backend(level: u8) {
+    VERIF_FORCED_BACKEND.store(level, core::sync::atomic::Ordering::SeqCst);
+}
+#[cfg(cryptocorrosion_verif)]
+#[inline]
+pub fn verif_forced_backend() -> u8 {
+    VERIF_FORCED_BACKEND.load(core::sync::atomic::Ordering::Relaxed)
+}
+
 #[derive(Copy, Clone)]
 pub struct YesS3;
 #[derive(Copy, Clone)]
@@ -282,6 +298,15 @@ macro_rules! dispatch {
             unsafe fn impl_sse2($($arg: $argty),*) -> $ret {
                 fn_impl($crate::x86_64::SSE2::instance(), $($arg),*)
             }
+            #[cfg(cryptocorrosion_verif)]
+            match $crate::x86_64::verif_forced_backend() {
+                5 => return unsafe { impl_avx2($($arg),*) },
+                4 => return unsafe { impl_avx($($arg),*) },
+                3 => return unsafe { impl_sse41($($arg),*) },
+                2 => return unsafe { impl_ssse3($($arg),*) },
+                1 => return unsafe { impl_sse2($($arg),*) },
+                _ => {}
+            }
             unsafe {
                 if is_x86_feature_detected!("avx2") {
                     impl_avx2($($arg),*)
@@ -346,6 +371,12 @@ macro_rules! dispatch_light128 {
             unsafe fn impl_sse2($($arg: $argty),*) -> $ret {
                 fn_impl($crate::x86_64::SSE2::instance(), $($arg),*)
             }
+            #[cfg(cryptocorrosion_verif)]
+            match $crate::x86_64::verif_forced_backend() {
+                4 | 5 => return unsafe { impl_avx($($arg),*) },
+                1 | 2 | 3 => return unsafe { impl_sse2($($arg),*) },
+                _ => {}
+            }
             unsafe {
                 if is_x86_feature_detected!("avx") {
                     impl_avx($($arg),*)
@@ -403,6 +434,12 @@ macro_rules! dispatch_light256 {
             #[target_feature(enable = "sse2")]
             unsafe fn impl_sse2($($arg: $argty),*) -> $ret {
                 fn_impl($crate::x86_64::SSE2::instance(), $($arg),*)
+            }
+            #[cfg(cryptocorrosion_verif)]
+            match $crate::x86_64::verif_forced_backend() {
+                4 | 5 => return unsafe { impl_avx($($arg),*) },
+                1 | 2 | 3 => return unsafe { impl_sse2($($arg),*) },
+                _ => {}
             }
             unsafe {
                 if is_x86_feature_detected!("avx") {
